@@ -7,6 +7,7 @@ import (
 	"time"
 
 	"github.com/goreleaser/nfpm/v2"
+	"verif/harness/internal/fsoracle"
 	"verif/harness/internal/report"
 	"verif/harness/internal/rng"
 	"verif/harness/internal/wire"
@@ -67,7 +68,7 @@ func genPkgContents(r *rng.R, t *SrcTree) []wire.Content {
 		case 10:
 			cs = append(cs, wire.Content{Src: rng.Pick(r, t.Files), Dst: fmt.Sprintf("/usr/share/doc/app/x%d", i), Type: rng.Pick(r, []string{"doc", "licence", "license", "readme"}), Info: fi()})
 		default:
-			cs = append(cs, wire.Content{Src: rng.Pick(r, []string{filepath.Join(t.Root, "with space/file name.txt"), filepath.Join(t.Root, "share/empty"), filepath.Join(t.Root, "links/ln")}),
+			cs = append(cs, wire.Content{Src: rng.Pick(r, []string{filepath.Join(t.Root, "with space/file name.txt"), filepath.Join(t.Root, "share/empty"), filepath.Join(t.Root, "links/ln"), filepath.Join(t.Root, "links/unclean"), filepath.Join(t.Root, "tree/dotlnk")}),
 				Dst: fmt.Sprintf("/opt/sp ace/n%d", i), Info: fi(), Packager: tag()})
 		}
 	}
@@ -123,6 +124,18 @@ func payloadCase(c *Ctx, fam *report.Family, famName string, s *PkgSpec, format 
 			c.Rep.Disagree(report.Disagreement{Family: famName, What: "PrepareForPackager and Package disagree on failure", Input: s.Input(), Model: fmt.Sprint(perr), Impl: fmt.Sprint(berr)})
 		}
 		return nil, nil, false
+	}
+	// what the configured contents denote is decided by the MODEL of planning (the real plan is only the witness):
+	// a planning change that alters modes, link targets, sources or destinations must not hide behind itself
+	if len(s.Raw) > 0 && s.FromYAML == "" {
+		cfg := wire.PlanCfg{Packager: format, Umask: s.Umask, NoGlob: s.NoGlob, MTime: s.MTime}
+		if a, err := c.D.Ask(wire.PlanReq(cfg, s.Raw, fsoracle.Build(s.Raw, s.NoGlob))); err == nil {
+			mcs, merr, perr := wire.ParseContents(a)
+			if perr == nil && showPlan(mcs, merr) != showPlan(plan, "") {
+				c.Rep.Disagree(report.Disagreement{Family: famName, What: "the entries the configured contents denote (model of files.PrepareForPackager) vs the entries nfpm planned for " + format,
+					Input: s.Input(), Model: showPlan(mcs, merr), Impl: showPlan(plan, "")})
+			}
+		}
 	}
 	dec, derr := DecodePkg(format, data)
 	if derr != nil {
